@@ -282,10 +282,12 @@ impl Api {
                 let keep: Arc<Mutex<Vec<Listener>>> = Arc::new(Mutex::new(vec![]));
                 let outer = trig.once().listen(move |_k: &i64| {
                     let sl: StreamLoop<i64> = ctx.new_stream_loop();
+                    // (odd k: the loop is closed before anything uses its stream; even k: after)
+                    if k.rem_euclid(2) == 1 { sl.loop_(&s); }
                     let m = sl.stream().map(move |v: &i64| f1(k, *v));
                     let (log, name) = (log.clone(), name.clone());
                     let li = m.listen(move |v: &i64| log.lock().unwrap().push((name.clone(), *v)));
-                    sl.loop_(&s);
+                    if k.rem_euclid(2) == 0 { sl.loop_(&s); }
                     keep.lock().unwrap().push(li);
                 });
                 std::mem::forget(outer);
